@@ -116,6 +116,14 @@ class Fold(ast.NodeTransformer):
                 if isinstance(r, (str, bool)):
                     self.changed = True
                     return ast.copy_location(ast.Constant(value=r), n)
+        # sum([a, b, c]) -> a + b + c   (0 + a == a for numbers and arrays alike)
+        if isinstance(n.func, ast.Name) and n.func.id == "sum" and len(n.args) == 1 and not n.keywords and isinstance(n.args[0], (ast.List, ast.Tuple)) \
+                and 1 <= len(n.args[0].elts) <= 8 and not any(isinstance(x, ast.Starred) for x in n.args[0].elts):
+            e = n.args[0].elts[0]
+            for x in n.args[0].elts[1:]:
+                e = ast.BinOp(left=e, op=ast.Add(), right=x)
+            self.changed = True
+            return ast.copy_location(e, n)
         # "fmt {}".format(const) / str(const)
         if isinstance(n.func, ast.Attribute) and n.func.attr == "format" and isinstance(n.func.value, ast.Constant) and isinstance(n.func.value.value, str) and not n.keywords:
             vals = [_const_value(a) for a in n.args]
@@ -803,6 +811,10 @@ def _rows(repo, f, it):
         if isinstance(e, (ast.Tuple, ast.List)) and e.elts and len(e.elts) <= MAX_ROWS and all(
                 isinstance(r, (ast.Tuple, ast.List)) and r.elts and all(_const(x) or _cheap(x) for x in r.elts) and any(_const(x) for x in r.elts) for r in e.elts):
             return list(e.elts)
+        # a display of equally long rows of plain names / paths: ((rows1, other1), (rows2, other2))
+        if isinstance(e, (ast.Tuple, ast.List)) and 1 <= len(e.elts) <= 8 and all(isinstance(r, (ast.Tuple, ast.List)) and r.elts and all(_cheap(x) for x in r.elts) for r in e.elts) \
+                and len({len(r.elts) for r in e.elts}) == 1:
+            return list(e.elts)
         # a display of plain names / paths: for idx in (idx1, idx2, idx3)
         if isinstance(e, (ast.Tuple, ast.List)) and 1 <= len(e.elts) <= 8 and all(isinstance(x, (ast.Name, ast.Attribute, ast.Subscript)) and _cheap(x) for x in e.elts):
             return list(e.elts)
@@ -926,11 +938,12 @@ def unroll_loops(repo, f, counter):
                     # names substituted into the body must not be re-bound there (cheap non-constant row values)
                     row_names = {x.id for r in rows for x in ast.walk(r[0]) if isinstance(x, ast.Name)}
                     if lbody is not None and all(b is not None for b in binds) and not (row_names & _stored(lbody)):
+                        outside = names_outside(f.node, st)
                         st = copy.copy(st)
                         st.body = lbody
                         tnames = set(binds[0])
                         stored = _stored(st.body)
-                        locals_ = iteration_locals(st.body, names_outside(f.node, st)) - tnames     # loop-carried names keep their name
+                        locals_ = iteration_locals(st.body, outside) - tnames     # loop-carried names keep their name
                         rebound = stored & tnames          # loop variables re-assigned in the body: bound by assignment, not substitution
                         k = counter[0]
                         counter[0] += 1
@@ -1021,7 +1034,7 @@ def unroll_loops(repo, f, counter):
         def visit_Call(self, n):
             self.generic_visit(n)
             # tuple(genexp) / list(genexp) / dict(genexp of pairs) over a constant iterable
-            if isinstance(n.func, ast.Name) and n.func.id in ("tuple", "list", "dict") and len(n.args) == 1 and not n.keywords and isinstance(n.args[0], ast.GeneratorExp):
+            if isinstance(n.func, ast.Name) and n.func.id in ("tuple", "list", "dict", "sum") and len(n.args) == 1 and not n.keywords and isinstance(n.args[0], ast.GeneratorExp):
                 g = n.args[0]
                 it = self._expand(g, lambda b: _Sub(b, {}).visit(copy.deepcopy(g.elt)))
                 if it is None:
@@ -1030,11 +1043,223 @@ def unroll_loops(repo, f, counter):
                     if all(isinstance(x, ast.Tuple) and len(x.elts) == 2 for x in it):
                         return ast.copy_location(ast.Dict(keys=[x.elts[0] for x in it], values=[x.elts[1] for x in it]), n)
                     return n
+                if n.func.id == "sum":
+                    n.args = [ast.List(elts=it, ctx=ast.Load())]
+                    return n
                 cls = ast.Tuple if n.func.id == "tuple" else ast.List
                 return ast.copy_location(cls(elts=it, ctx=ast.Load()), n)
             return n
     C().visit(f.node)
     return changed[0]
+
+
+# --------------------------------------------------------------------------------------------------- P3b displays, aliases, appends
+def scalarise_display_locals(f, counter):
+    """NAME = ((E1, a), (E2, b))  with NAME bound once, never mutated and used only as the iterable of loops / comprehensions:
+    the elements that are not plain names / paths are evaluated into temporaries first (display order), so that the loops over
+    NAME can be unrolled without duplicating work:  NAME__d0 = E1; NAME__d1 = E2; NAME = ((NAME__d0, a), (NAME__d1, b))"""
+    changed = False
+    par = {}
+    for n in ast.walk(f.node):
+        for c in ast.iter_child_nodes(n):
+            par[c] = n
+
+    def only_iterated(name):
+        for x in walk_own(f.node):
+            if isinstance(x, ast.Name) and x.id == name and isinstance(x.ctx, ast.Load):
+                p = par.get(x)
+                if isinstance(p, ast.For) and p.iter is x:
+                    continue
+                if isinstance(p, ast.comprehension) and p.iter is x:
+                    continue
+                return False
+        return True
+
+    def rewrite(stmts):
+        nonlocal changed
+        out = []
+        for st in stmts:
+            for fld in ("body", "orelse", "finalbody"):
+                sub = getattr(st, fld, None)
+                if isinstance(sub, list) and sub and isinstance(sub[0], ast.stmt) and not isinstance(st, (ast.FunctionDef, ast.AsyncFunctionDef, ast.ClassDef)):
+                    setattr(st, fld, rewrite(sub))
+            if isinstance(st, ast.Try):
+                for h in st.handlers:
+                    h.body = rewrite(h.body)
+            if isinstance(st, ast.Assign) and len(st.targets) == 1 and isinstance(st.targets[0], ast.Name) and isinstance(st.value, (ast.Tuple, ast.List)) \
+                    and 1 <= len(st.value.elts) <= 8 and _display_local(f, st.targets[0].id) is st.value and only_iterated(st.targets[0].id):
+                name = st.targets[0].id
+                rows = st.value.elts
+                flat = all(not isinstance(r, (ast.Tuple, ast.List)) for r in rows)
+                nested = all(isinstance(r, (ast.Tuple, ast.List)) and not any(isinstance(x, ast.Starred) for x in r.elts) for r in rows)
+                leaves = [(None, i) for i in range(len(rows))] if flat else ([(i, j) for i, r in enumerate(rows) for j in range(len(r.elts))] if nested else [])
+                todo = []
+                for i, j in leaves:
+                    el = rows[j] if i is None else rows[i].elts[j]
+                    if not (_cheap(el) or _const(el)):
+                        todo.append((i, j, el))
+                # evaluating the remaining (cheap) elements later than the temporaries is unobservable: they are names / paths / constants
+                if todo and not any(isinstance(x, (ast.Yield, ast.YieldFrom, ast.Await, ast.NamedExpr, ast.Lambda)) for _, _, el in todo for x in ast.walk(el)):
+                    k = counter[0]
+                    counter[0] += 1
+                    for n_, (i, j, el) in enumerate(todo):
+                        t = f"{name}__d{k}_{n_}"
+                        out.append(ast.copy_location(ast.Assign(targets=[ast.Name(id=t, ctx=ast.Store())], value=el, lineno=st.lineno), st))
+                        ref = ast.Name(id=t, ctx=ast.Load())
+                        if i is None:
+                            rows[j] = ref
+                        else:
+                            rows[i].elts[j] = ref
+                    changed = True
+            out.append(st)
+        return out
+    f.node.body = rewrite(f.node.body)
+    if changed:
+        ast.fix_missing_locations(f.node)
+    return changed
+
+
+def propagate_path_aliases(repo, f):
+    """V = self.attr   (V bound once, at the top level of the function body, before any other mention of V; `self.attr` not re-bound
+    in this function nor in any method of the class that the function may reach through self-calls)  ->  every V reads self.attr.
+    Sound because V and self.attr then denote the same object throughout (in-place updates are seen through both)."""
+    if not f.cls or not f.params or f.params[0] != "self":
+        return False
+    cq = f"{f.mod}.{f.cls}"
+    changed = False
+    for idx, st in enumerate(list(f.node.body)):
+        if not (isinstance(st, ast.Assign) and len(st.targets) == 1 and isinstance(st.targets[0], ast.Name) and isinstance(st.value, ast.Attribute)
+                and isinstance(st.value.value, ast.Name) and st.value.value.id == "self"):
+            continue
+        v, attr = st.targets[0].id, st.value.attr
+        stores = [x for x in ast.walk(f.node) if isinstance(x, ast.Name) and x.id == v and isinstance(x.ctx, (ast.Store, ast.Del))]
+        if len(stores) != 1 or v in f.params:
+            continue
+        if any(isinstance(x, ast.Name) and x.id == v for b in f.node.body[:idx] for x in ast.walk(b)):
+            continue
+        if any(isinstance(x, (ast.Global, ast.Nonlocal)) for x in ast.walk(f.node)):
+            continue
+        # nested functions capturing v are fine (same object); re-binding of self.attr is not
+        def rebinds(node):
+            for x in ast.walk(node):
+                if isinstance(x, ast.Attribute) and x.attr == attr and isinstance(x.ctx, (ast.Store, ast.Del)) and isinstance(x.value, ast.Name) and x.value.id == "self":
+                    return True
+                if isinstance(x, ast.Call) and U(x.func) in ("setattr", "delattr") or (isinstance(x, ast.Attribute) and x.attr == "__dict__"):
+                    return True
+            return False
+        seen, work, bad = set(), [f.node], False
+        while work and not bad:
+            nd = work.pop()
+            if rebinds(nd):
+                bad = True
+                break
+            for c in ast.walk(nd):
+                if isinstance(c, ast.Call) and isinstance(c.func, ast.Attribute) and isinstance(c.func.value, ast.Name) and c.func.value.id == "self":
+                    m = None
+                    for k in repo.mro(cq):
+                        g = repo.funcs.get(f"{k}.{c.func.attr}")
+                        if g is not None:
+                            m = g
+                            break
+                    if m is None and c.func.attr in ("__getattribute__", "__getattr__", "__sizeof__", "__repr__", "__hash__"):
+                        continue        # object's own read-only protocol methods
+                    if m is None:
+                        bad = True          # a call on self that is not a method of the class (a callable attribute): cannot be followed
+                        break
+                    if m.qname not in seen:
+                        seen.add(m.qname)
+                        work.append(m.node)
+        if bad:
+            continue
+        for x in ast.walk(f.node):
+            for fld, val in ast.iter_fields(x):
+                if isinstance(val, ast.Name) and val.id == v and isinstance(val.ctx, ast.Load):
+                    setattr(x, fld, ast.copy_location(ast.Attribute(value=ast.Name(id="self", ctx=ast.Load()), attr=attr, ctx=ast.Load()), val))
+                elif isinstance(val, list):
+                    for i, y in enumerate(val):
+                        if isinstance(y, ast.Name) and y.id == v and isinstance(y.ctx, ast.Load):
+                            val[i] = ast.copy_location(ast.Attribute(value=ast.Name(id="self", ctx=ast.Load()), attr=attr, ctx=ast.Load()), y)
+        f.node.body.remove(st)
+        changed = True
+    if changed:
+        ast.fix_missing_locations(f.node)
+    return changed
+
+
+def sink_appends(fnode, counter):
+    """if c: ...; L.append(a); ...  else: ...; L.append(b); ...   (each arm of the if / elif chain appends to L exactly once, at the
+    arm's top level, and does not mention L otherwise)  ->  the arms bind a temporary instead and ONE append follows the statement.
+    The appended values are evaluated where they were; only the (effect-free apart from L) append moves past the rest of its arm."""
+    changed = False
+
+    def arms_of(st):
+        arms = [st.body]
+        while len(st.orelse) == 1 and isinstance(st.orelse[0], ast.If):
+            st = st.orelse[0]
+            arms.append(st.body)
+        if not st.orelse:
+            return None
+        arms.append(st.orelse)
+        return arms
+
+    def append_of(s):
+        c = s.value if isinstance(s, ast.Expr) and isinstance(s.value, ast.Call) else None
+        if c is not None and isinstance(c.func, ast.Attribute) and c.func.attr == "append" and isinstance(c.func.value, ast.Name) and len(c.args) == 1 and not c.keywords:
+            return c.func.value.id, c.args[0]
+        return None
+
+    def rewrite(stmts):
+        nonlocal changed
+        out = []
+        for st in stmts:
+            for fld in ("body", "orelse", "finalbody"):
+                sub = getattr(st, fld, None)
+                if isinstance(sub, list) and sub and isinstance(sub[0], ast.stmt) and not isinstance(st, (ast.FunctionDef, ast.AsyncFunctionDef, ast.ClassDef)):
+                    setattr(st, fld, rewrite(sub))
+            if isinstance(st, ast.Try):
+                for h in st.handlers:
+                    h.body = rewrite(h.body)
+            out.append(st)
+            if not isinstance(st, ast.If):
+                continue
+            arms = arms_of(st)
+            if arms is None:
+                continue
+            if any(isinstance(x, (ast.Return, ast.Break, ast.Continue, ast.Raise)) for a in arms for s in a for x in ast.walk(s)):
+                continue
+            cands = None
+            for a in arms:
+                here = {}
+                for s in a:
+                    ap = append_of(s)
+                    if ap:
+                        here.setdefault(ap[0], []).append(s)
+                ok = set()
+                for L, ss in here.items():
+                    mentions = sum(1 for s in a for x in ast.walk(s) if isinstance(x, ast.Name) and x.id == L)
+                    if len(ss) == 1 and mentions == 1:
+                        ok.add(L)
+                cands = ok if cands is None else cands & ok
+            test_names = {x.id for x in ast.walk(st) if isinstance(x, ast.Name)}
+            for L in sorted(cands or ()):
+                k = counter[0]
+                counter[0] += 1
+                t = f"{L}__s{k}"
+                if t in test_names:
+                    continue
+                for a in arms:
+                    for i, s in enumerate(a):
+                        ap = append_of(s)
+                        if ap and ap[0] == L:
+                            a[i] = ast.copy_location(ast.Assign(targets=[ast.Name(id=t, ctx=ast.Store())], value=ap[1], lineno=s.lineno), s)
+                out.append(ast.copy_location(ast.Expr(value=ast.Call(func=ast.Attribute(value=ast.Name(id=L, ctx=ast.Load()), attr="append", ctx=ast.Load()),
+                                                                      args=[ast.Name(id=t, ctx=ast.Load())], keywords=[])), st))
+                changed = True
+        return out
+    fnode.body = rewrite(fnode.body)
+    if changed:
+        ast.fix_missing_locations(fnode)
+    return changed
 
 
 # --------------------------------------------------------------------------------------------------- P4 dicts
@@ -1539,7 +1764,7 @@ def partial_evaluate(repo, max_rounds=8):
     report = {}
     counter = [0]
     for q, f in list(repo.funcs.items()):
-        if not has_constant_structure(repo, f) and not _calls_new_helper(repo, f):
+        if not has_constant_structure(repo, f) and not _calls_new_helper(repo, f) and q not in getattr(repo, "inlined", {}):
             continue
         steps = []
         for _ in range(max_rounds):
@@ -1555,9 +1780,19 @@ def partial_evaluate(repo, max_rounds=8):
             if inline_closures(f.node):
                 ch = True
                 steps.append("closures")
+            if (steps or q in getattr(repo, "inlined", {})) and propagate_path_aliases(repo, f):
+                ch = True
+                steps.append("aliases")
+            if (steps or q in getattr(repo, "inlined", {})) and scalarise_display_locals(f, counter):
+                ch = True
+                steps.append("displays")
             if unroll_loops(repo, f, counter):
                 ch = True
                 steps.append("unroll")
+            if steps and sink_appends(f.node, counter):
+                ch = True
+                steps.append("sink-appends")
+                fold_append_sequences(f.node)
             if steps and setdefault_groups(f.node):
                 ch = True
                 steps.append("groups")
